@@ -28,6 +28,65 @@ let rec handle ws = match ws with
       let sp = handle ["vi.dec"; (if flat = "" then "-" else flat)] in
       let i = (try String.index sp '|' with Not_found -> 0) in
       m ^ " | " ^ String.trim (String.sub sp (i + 1) (String.length sp - i - 1))
+  | [("vi.sessd" | "st.dec") as fam; chunks] ->
+      (* Decode for SessionId / StreamType on a (possibly non-contiguous) buffer: same oracle as vi.dec *)
+      let flat = String.concat "" (List.filter (fun c -> c <> "-") (String.split_on_char '.' chunks)) in
+      let bs = bytes_of_hex (if flat = "" then "-" else flat) in
+      let m = (match (if fam = "st.dec" then st_decode bs else sess_decode bs) with
+        | (Ok v, rest) -> "ok " ^ string_of_n v ^ " " ^ hex_of_bytes rest
+        | (Err e, rest) -> "err " ^ string_of_n e ^ " " ^ hex_of_bytes rest
+        | (Panic s, _) -> "panic " ^ string_of_n s) in
+      let sp = handle ["vi.dec"; (if flat = "" then "-" else flat)] in
+      let i = (try String.index sp '|' with Not_found -> 0) in
+      m ^ " | " ^ String.trim (String.sub sp (i + 1) (String.length sp - i - 1))
+  | ["vi.sess"; x] ->
+      (* SessionId::try_from, then what the accepted id holds and how Encode writes it *)
+      let xn = n_of_string x in
+      let m = (match sess_try_from xn with
+        | None -> "err invalid"
+        | Some id -> (match sess_encode id with
+            | None -> "panic unwrap"
+            | Some e -> "ok " ^ string_of_n id ^ " " ^ hex_of_bytes e)) in
+      let s = if N.ltb xn two62 then "ok " ^ string_of_n xn ^ " " ^ hex_of_bytes (rfc_vi_enc (rfc_vi_shortest xn) xn) else "err invalid" in
+      m ^ " | " ^ s
+  | ["sid.enc"; x] ->
+      let xn = n_of_string x in
+      let m = (match sid_try_from xn with
+        | None -> "err invalid"
+        | Some id -> (match sid_encode id with None -> "panic unwrap" | Some e -> "ok " ^ hex_of_bytes e)) in
+      let s = if N.ltb xn two62 then "ok " ^ hex_of_bytes (rfc_vi_enc (rfc_vi_shortest xn) xn) else "err invalid" in
+      m ^ " | " ^ s
+  | ["st.enc"; x] ->
+      (* StreamType::from_value(x).encode: write_var, a panic for x >= 2^62 *)
+      let xn = n_of_string x in
+      let m = (match st_encode xn with None -> "panic" | Some e -> "ok " ^ hex_of_bytes e) in
+      let s = if N.ltb xn two62 then "ok " ^ hex_of_bytes (rfc_vi_enc (rfc_vi_shortest xn) xn) else "panic" in
+      m ^ " | " ^ s
+  | ["sid.disp"; x] ->
+      let xn = n_of_string x in
+      let m = (match sid_try_from xn with
+        | None -> "err invalid"
+        | Some id -> let ((s, d), n) = sid_display id in
+            Printf.sprintf "ok %s %s %s" (side_s s) (dir_s d) (string_of_n n)) in
+      let s = if N.ltb xn two62 then
+          Printf.sprintf "ok %s %s %s" (if rfc_sid_client xn then "client" else "server")
+            (if rfc_sid_bidi xn then "bi" else "uni") (string_of_n (rfc_sid_index xn))
+        else "err invalid" in
+      m ^ " | " ^ s
+  | ["vi.from"; _; x] ->
+      (* the infallible constructors From<u8|u16|u32>, from_u32: the value is the argument (the generator keeps x in range) *)
+      let xn = n_of_string x in
+      let m = (match vi_encode xn with None -> "panic unreachable" | Some e -> "ok " ^ hex_of_bytes e) in
+      m ^ " | ok " ^ hex_of_bytes (rfc_vi_enc (rfc_vi_shortest xn) xn)
+  | ["vi.encp"; _; pre; x] ->
+      (* encode onto a non-empty target: the bytes already there stay, the encoding is appended *)
+      let xn = n_of_string x in
+      let cat e = hex_of_bytes (bytes_of_hex pre @ e) in
+      let m = (match vi_from_u64 xn with
+        | None -> "err bounds"
+        | Some v -> (match vi_encode v with None -> "panic unreachable" | Some e -> "ok " ^ cat e)) in
+      let s = if N.ltb xn two62 then "ok " ^ cat (rfc_vi_enc (rfc_vi_shortest xn) xn) else "err bounds" in
+      m ^ " | " ^ s
   | ["vi.decc"; chunks] ->
       let flat = String.concat "" (List.filter (fun c -> c <> "-") (String.split_on_char '.' chunks)) in
       handle ["vi.dec"; (if flat = "" then "-" else flat)]
